@@ -2,13 +2,15 @@ import Mieru.Gen.Consts
 import Mieru.Proofs.Discovery
 import Mieru.Proofs.SrcCache
 import Mieru.Proofs.Session
+import Mieru.Model.Reload
 /-!
 # C07 — sessions are attributed to the authenticating user despite caches and reloads
 
 Model: `Mieru.Discovery.tryState` (pkg/protocol/serveruser/registry.go) over a generation of `n`
 users with ids `1..n` in name order, abstract `hint`/`auth` predicates, arbitrary cached ids;
-`Mieru.SrcCache` (source_user_cache.go, one bucket); the reload transition system
-`Mieru.Discovery.Step`.  Tied to the code on every run by harness/props/c07.go.
+`Mieru.SrcCache` (source_user_cache.go, one bucket); `Mieru.Session` (the server branch of
+`readOneSegment` on both underlays: existing-session match ∨ Discover); `Mieru.Reload` (`SetUsers` ‖
+`discoverUser` with the user sets).  Tied to the code on every run by harness/props/c07*.go.
 -/
 set_option linter.unusedSimpArgs false
 set_option linter.unusedVariables false
@@ -309,87 +311,6 @@ theorem lookup_stale_ids_harmless :
       = tryState n hint auth (cached.filter (validID n)) mandatory := by
   unfold tryState
   simp only [cp_filter_valid]
-
-/-! ## reload: `SetUsers` ‖ `Discover` -/
-
-/-- generation `g` was the published one at some instant since discovery started in `s0` -/
-def CurrentSince (s0 s : Sys) (g : Nat) : Prop :=
-  g = s0.published ∨ (g ∈ s.history ∧ g ∉ s0.history)
-
-theorem reach_inv (rc : Bool) (s0 s : Sys) (h0 : s0.disc = .idle) (hr : Reach rc s0 s) :
-    (∀ x, x ∈ s0.history → x ∈ s.history) ∧
-    CurrentSince s0 s s.published ∧
-    (∀ g, s.disc = .tried g ∨ s.disc = .returned g → CurrentSince s0 s g) := by
-  induction hr with
-  | refl =>
-    refine ⟨fun _ h => h, Or.inl rfl, ?_⟩
-    intro g hg
-    rw [h0] at hg
-    rcases hg with hg | hg <;> cases hg
-  | step _ hstep ih =>
-    obtain ⟨hmono, hpub, hdisc⟩ := ih
-    cases hstep with
-    | reload g hfresh =>
-      refine ⟨fun x hx => List.mem_append.mpr (Or.inl (hmono x hx)), ?_, ?_⟩
-      · right
-        exact ⟨List.mem_append.mpr (Or.inr (List.mem_singleton.mpr rfl)), fun hin => hfresh (hmono g hin)⟩
-      · intro g' hg'
-        rcases hdisc g' hg' with h | ⟨h1, h2⟩
-        · exact Or.inl h
-        · exact Or.inr ⟨List.mem_append.mpr (Or.inl h1), h2⟩
-    | load hidle =>
-      refine ⟨hmono, hpub, ?_⟩
-      intro g' hg'
-      simp only [DPhase.tried.injEq, reduceCtorEq, or_false] at hg'
-      subst hg'
-      exact hpub
-    | retry g hd hreq hne =>
-      refine ⟨hmono, hpub, ?_⟩
-      intro g' hg'
-      rcases hg' with hg' | hg' <;> cases hg'
-    | ret g hd hok =>
-      refine ⟨hmono, hpub, ?_⟩
-      intro g' hg'
-      simp only [reduceCtorEq, DPhase.returned.injEq, false_or] at hg'
-      subst hg'
-      exact hdisc g (Or.inl hd)
-
-/-- OVER ALL INTERLEAVINGS of reloads with one discovery (with or without `requireCurrent`): the
-    generation a result is attributed to was the published one at some instant after the
-    discovery started -/
-theorem discover_generation_current (rc : Bool) (s0 s : Sys) (h0 : s0.disc = .idle)
-    (hr : Reach rc s0 s) (g : Nat) (hg : s.disc = .returned g) : CurrentSince s0 s g :=
-  (reach_inv rc s0 s h0 hr).2.2 g (Or.inr hg)
-
-/-- hence: once a reload has completed, a discovery that starts afterwards is never attributed to
-    a retired generation (so no credential that is no longer registered authenticates it) -/
-theorem discover_never_retired (rc : Bool) (s0 s : Sys) (h0 : s0.disc = .idle)
-    (hr : Reach rc s0 s) (old : Nat) (hold : old ∈ s0.history) (hne : old ≠ s0.published) :
-    s.disc ≠ .returned old := by
-  intro hg
-  rcases discover_generation_current rc s0 s h0 hr old hg with h | ⟨_, h⟩
-  · exact hne h
-  · exact h hold
-
-/-- with `requireCurrent` (TCP) the result is handed over only at an instant at which its
-    generation IS the published one -/
-theorem discover_requireCurrent_at_return (s s' : Sys) (g : Nat) (hstep : Step true s s')
-    (hbefore : ∀ g', s.disc ≠ .returned g') (hafter : s'.disc = .returned g) : s.published = g := by
-  cases hstep with
-  | reload g' hfresh => exact absurd hafter (hbefore g)
-  | load hidle => simp at hafter
-  | retry g' hd hreq hne => simp at hafter
-  | ret g' hd hok =>
-    simp only [DPhase.returned.injEq] at hafter
-    subst hafter
-    rcases hok with h | h
-    · cases h
-    · exact h
-
-/-- non-vacuity: a reload racing with a discovery; the stale result is retried -/
-example : Reach true ⟨0, [0], .idle, 0⟩ ⟨1, [0, 1], .returned 1, 0⟩ := by
-  refine .step (.step (.step (.step (.step (.refl _) (.load _ rfl)) (.reload _ 1 (by decide)))
-    (.retry _ 0 rfl rfl (by decide))) (.load _ rfl)) (.ret _ 1 rfl (Or.inr rfl))
 
 /-! ## the source-user cache -/
 
@@ -911,5 +832,194 @@ example : udpOuts ⟨[g0], true, []⟩
     = [.accepted 2 0 true, .accepted 2 0 false, .dropped] := by decide
 
 end sessions
+
+/-! ## RELOAD: `SetUsers` ‖ `discoverUser`, with the user sets (`Mieru.Reload`) -/
+
+section reload
+open Mieru.Session Mieru.Reload
+
+theorem Reach.trans {rc mand : Bool} {seg : Seg} {a b c : Sys}
+    (h1 : Reach rc mand seg a b) (h2 : Reach rc mand seg b c) : Reach rc mand seg a c := by
+  induction h2 with
+  | refl => exact h1
+  | step _ hs ih => exact .step ih hs
+
+/-- invariant of the transition system, over ALL interleavings: the generations only grow, and a
+    pending or returned outcome was computed on a generation published since the discovery started;
+    an accepted user is a user of THAT generation whose credential sealed the segment -/
+theorem reload_inv (rc mand : Bool) (seg : Seg) (s0 s : Sys) (h0 : s0.disc = .idle)
+    (hr : Reach rc mand seg s0 s) :
+    (∃ m, s.gens = s0.gens ++ m) ∧
+    (∀ gi res, (s.disc = .tried gi res ∨ s.disc = .returned gi res) →
+      s0.published ≤ gi ∧ gi ≤ s.published ∧
+      ∀ u, res = some u → ∃ g, s.gens[gi]? = some g ∧ u ∈ g ∧ seg.key = some u.cred) := by
+  induction hr with
+  | refl =>
+    refine ⟨⟨[], by simp⟩, ?_⟩
+    intro gi res hd
+    rw [h0] at hd
+    rcases hd with hd | hd <;> cases hd
+  | @step b c hab hstep ih =>
+    obtain ⟨⟨m, hm⟩, hdisc⟩ := ih
+    have hpub : s0.published ≤ b.published := by
+      simp only [Sys.published, hm, List.length_append]; omega
+    cases hstep with
+    | reload g =>
+      refine ⟨⟨m ++ [g], by simp [hm]⟩, ?_⟩
+      intro gi res hd
+      obtain ⟨h1, h2, h3⟩ := hdisc gi res hd
+      refine ⟨h1, by simp only [Sys.published, List.length_append, List.length_singleton] at h2 ⊢; omega, ?_⟩
+      intro u hu
+      obtain ⟨gg, hg, hrest⟩ := h3 u hu
+      exact ⟨gg, getElem?_append_some _ _ _ _ hg, hrest⟩
+    | loadEmpty hidle he =>
+      refine ⟨⟨m, hm⟩, ?_⟩
+      intro gi res hd
+      simp only [reduceCtorEq, DPhase.returned.injEq, false_or] at hd
+      obtain ⟨rfl, rfl⟩ := hd
+      exact ⟨hpub, Nat.le_refl _, fun u hu => by cases hu⟩
+    | load hidle hne cached =>
+      refine ⟨⟨m, hm⟩, ?_⟩
+      intro gi res hd
+      simp only [DPhase.tried.injEq, reduceCtorEq, or_false] at hd
+      obtain ⟨rfl, rfl⟩ := hd
+      refine ⟨hpub, Nat.le_refl _, ?_⟩
+      intro u hu
+      obtain ⟨hmem, hk⟩ := discover_sound _ _ _ _ hu
+      exact ⟨current b.gens, current_eq_getElem _ (gens_ne_nil_of_mem_current _ _ hmem), hmem, hk⟩
+    | retry gi res hd hreq hne =>
+      refine ⟨⟨m, hm⟩, ?_⟩
+      intro gi' res' hd'
+      rcases hd' with hd' | hd' <;> cases hd'
+    | ret gi res hd hok =>
+      refine ⟨⟨m, hm⟩, ?_⟩
+      intro gi' res' hd'
+      simp only [reduceCtorEq, DPhase.returned.injEq, false_or] at hd'
+      obtain ⟨rfl, rfl⟩ := hd'
+      exact hdisc gi res (Or.inl hd)
+
+/-- OVER ALL INTERLEAVINGS of reloads with one discovery (with or without `requireCurrent`): a
+    discovery that returns user `u` attributed to generation `gi`: `u` is a user of generation `gi`
+    and `u`'s credential sealed the segment; generation `gi` was the published one at some instant
+    after the discovery started (its index lies between the one published at the start and the one
+    published now; generation `i` is the published one from its own `SetUsers` to the next) -/
+theorem discover_result_authentic_and_current (rc mand : Bool) (seg : Seg) (s0 s : Sys)
+    (h0 : s0.disc = .idle) (hr : Reach rc mand seg s0 s) (gi : Nat) (u : User)
+    (hg : s.disc = .returned gi (some u)) :
+    s0.published ≤ gi ∧ gi ≤ s.published ∧ ∃ g, s.gens[gi]? = some g ∧ u ∈ g ∧ seg.key = some u.cred := by
+  obtain ⟨h1, h2, h3⟩ := (reload_inv rc mand seg s0 s h0 hr).2 gi (some u) (Or.inr hg)
+  exact ⟨h1, h2, h3 u rfl⟩
+
+/-- with `requireCurrent` (TCP) the outcome is handed over only at an instant at which its
+    generation IS the published one -/
+theorem discover_requireCurrent_at_return (mand : Bool) (seg : Seg) (s s' : Sys) (gi : Nat) (res : Option User)
+    (hstep : Step true mand seg s s') (hbefore : ∀ g r, s.disc ≠ .returned g r)
+    (hafter : s'.disc = .returned gi res) : gi = s.published := by
+  cases hstep with
+  | reload g => exact absurd hafter (hbefore gi res)
+  | loadEmpty hidle he => simp only [DPhase.returned.injEq] at hafter; exact hafter.1.symm
+  | load hidle hne cached => simp at hafter
+  | retry gi' res' hd hreq hne => simp at hafter
+  | ret gi' res' hd hok =>
+    simp only [DPhase.returned.injEq] at hafter
+    obtain ⟨rfl, _⟩ := hafter
+    rcases hok with h | h
+    · cases h
+    · exact h.symm
+
+/-- THE RELOAD CLAUSE for `Registry.Discover`: a credential `c` that is registered in no generation
+    published since the discovery started — in particular one that a `SetUsers` which RETURNED
+    before the discovery started has removed — never authenticates it: no interleaving returns a
+    user for a segment sealed under `c` -/
+theorem discover_never_retired_credential (rc mand : Bool) (seg : Seg) (s0 s : Sys)
+    (h0 : s0.disc = .idle) (hr : Reach rc mand seg s0 s) (c : Nat) (hk : seg.key = some c)
+    (hretired : ∀ i g, s0.published ≤ i → s.gens[i]? = some g → ∀ u ∈ g, u.cred ≠ c) :
+    ∀ gi u, s.disc ≠ .returned gi (some u) := by
+  intro gi u hg
+  obtain ⟨h1, _, g, hgg, hu, hku⟩ := discover_result_authentic_and_current rc mand seg s0 s h0 hr gi u hg
+  rw [hk] at hku
+  exact hretired gi g h1 hgg u hu (Option.some.inj hku).symm
+
+theorem reach_reloads (rc mand : Bool) (seg : Seg) (d : DPhase) (gens seam : List Gen) :
+    Reach rc mand seg ⟨gens, d⟩ ⟨gens ++ seam, d⟩ := by
+  induction seam generalizing gens with
+  | nil => simp only [List.append_nil]; exact .refl _
+  | cons g t ih =>
+    have h1 : Reach rc mand seg ⟨gens, d⟩ ⟨gens ++ [g], d⟩ := .step (.refl _) (.reload _ g)
+    have h2 := ih (gens ++ [g])
+    rw [List.append_assoc] at h2
+    exact Reach.trans h1 h2
+
+/-- the loop as a function of a schedule (`Mieru.Reload.run`, the definition the harness compares with
+    `discoverUser` attempt by attempt) only produces outcomes of the transition system: every theorem
+    above applies to them -/
+theorem run_reach (rc mand : Bool) (seg : Seg) (sched : List (List Nat × List Gen)) (gens : List Gen)
+    (acc : List Attempt) (gens' : List Gen) (atts : List Attempt) (gi : Nat) (res : Option User)
+    (h : run rc mand seg gens sched acc = (gens', atts, some (gi, res))) :
+    Reach rc mand seg ⟨gens, .idle⟩ ⟨gens', .returned gi res⟩ := by
+  induction sched generalizing gens acc with
+  | nil => simp [run] at h
+  | cons p rest ih =>
+    obtain ⟨cached, seam⟩ := p
+    unfold run at h
+    split at h
+    · rename_i he
+      simp only [Prod.mk.injEq, Option.some.injEq] at h
+      obtain ⟨rfl, _, rfl, rfl⟩ := h
+      exact .step (.refl _) (.loadEmpty _ rfl he)
+    · rename_i hne
+      have hload : Reach rc mand seg ⟨gens, .idle⟩
+          ⟨gens, .tried (gens.length - 1) (discover (current gens) mand { seg with cached := cached })⟩ :=
+        .step (.refl _) (.load _ rfl hne cached)
+      have hseam := reach_reloads rc mand seg
+        (.tried (gens.length - 1) (discover (current gens) mand { seg with cached := cached })) gens seam
+      have hmid := Reach.trans hload hseam
+      simp only at h
+      split at h
+      · rename_i hc
+        have hretry : Reach rc mand seg ⟨gens, .idle⟩ ⟨gens ++ seam, .idle⟩ :=
+          .step hmid (.retry _ _ _ rfl hc.1 hc.2)
+        exact Reach.trans hretry (ih _ _ h)
+      · rename_i hc
+        simp only [Prod.mk.injEq, Option.some.injEq] at h
+        obtain ⟨rfl, _, rfl, rfl⟩ := h
+        refine .step hmid (.ret _ _ _ rfl ?_)
+        cases rc with
+        | false => exact Or.inl rfl
+        | true =>
+          right
+          simp only [true_and, Decidable.not_not] at hc
+          exact hc
+
+/-! non-vacuity: alice (1, credential 10), bob (2, credential 20); `g1` has lost bob -/
+
+def bobSeg : Seg := { addr := 0, key := some 20, hinted := [2], openReq := true, sid := 1, cached := [], pick := 0 }
+
+/-- `requireCurrent`: a reload that removes bob lands between `tryState` and the re-check — the
+    stale acceptance is discarded and the retry on the new generation rejects; the two attempts ran
+    bob's decryptor, then alice's -/
+example : run true false bobSeg [g0] [([], [g1]), ([], [])] []
+    = ([g0, g1], [⟨0, [2], some ⟨2, 20⟩⟩, ⟨1, [1], none⟩], some (1, none)) := by decide
+
+/-- no `requireCurrent` (UDP): the same reload during the discovery — the result computed on the
+    generation that was published when the discovery loaded it is returned; it IS a generation
+    published after the discovery started, as `discover_result_authentic_and_current` says, but it is
+    retired by the time of the return -/
+example : run false false bobSeg [g0] [([], [g1])] []
+    = ([g0, g1], [⟨0, [2], some ⟨2, 20⟩⟩], some (0, some ⟨2, 20⟩)) := by decide
+
+/-- a discovery that STARTS after the reload has completed never returns bob, with or without
+    `requireCurrent` (instance of `discover_never_retired_credential`: published index 1 at the start) -/
+example : ∀ rc, (run rc false bobSeg [g0, g1] [([2], [])] []).2.2 = some (1, none) := by decide
+
+/-- two reloads inside one discovery, the second during the retry -/
+example : run true false bobSeg [g0] [([], [g1]), ([], [g0]), ([], [])] []
+    = ([g0, g1, g0], [⟨0, [2], some ⟨2, 20⟩⟩, ⟨1, [1], none⟩, ⟨2, [2], some ⟨2, 20⟩⟩], some (2, some ⟨2, 20⟩)) := by decide
+
+/-- a reload to an empty user set: the retry returns the error at once -/
+example : run true false bobSeg [g0] [([], [[]]), ([], [])] [] = ([g0, []], [⟨0, [2], some ⟨2, 20⟩⟩], some (1, none)) := by
+  decide
+
+end reload
 
 end Mieru.C07
